@@ -219,9 +219,22 @@ void Stats::processMsg(int sockfd) {
   }
   root["body"] = body;
   std::string ret = root.toStyledString();
-  if (Util::writeFull(sockfd, ret.c_str(), strlen(ret.c_str())) < 0) {
-    OLOG << "Stats server error: writing to socket: "
-         << ::strerror_r(errno, err_buf.data(), err_buf.size());
+  // MSG_NOSIGNAL: a client that has already gone away must yield EPIPE here,
+  // not a SIGPIPE that kills the whole daemon
+  const char* out = ret.c_str();
+  size_t left = strlen(out);
+  while (left > 0) {
+    ssize_t n = ::send(sockfd, out, left, MSG_NOSIGNAL);
+    if (n < 0) {
+      if (errno == EINTR) {
+        continue;
+      }
+      OLOG << "Stats server error: writing to socket: "
+           << ::strerror_r(errno, err_buf.data(), err_buf.size());
+      break;
+    }
+    out += n;
+    left -= n;
   }
 }
 
